@@ -9,7 +9,7 @@ RULE = ("band rasters up to 10x10 in uint8/uint16/int32/float32/float64 with dis
         "change the result), zeros, equal bands, bands arranged so that denominators are exactly zero in places, NaN cells; random "
         "soil_factor in [-1,1], c1, c2, gain >= 0; NumPy backend and (1 in 3) Dask with random chunking; non-trivial = distinct "
         "(index, dtype, data hash, parameters) with >= 2 distinct finite output values")
-BUDGET = {'quick': 80, 'thorough': 500}
+BUDGET = {'quick': 160, 'thorough': 500}
 FLOORS = {'quick': {'formula': 1000, 'zero_denominator_nan': 300, 'nd.range': 267, 'nd.swap_negates': 267, 'nd.pow2_scale': 225,
                     'true_color.alpha': 50, 'uint_nir_lt_red': 100, 'dask': 300},
           'thorough': {'formula': 15000, 'zero_denominator_nan': 3000}}
